@@ -71,7 +71,7 @@ fn mod_mul(a: &BigUint, b: &BigUint, m: &BigUint) -> BigUint {
 }
 
 /// Inverse modulo the prime m by Fermat's little theorem: a^(m-2). `a` must be non-zero mod m.
-fn mod_inv(a: &BigUint, m: &BigUint) -> BigUint {
+pub fn mod_inv(a: &BigUint, m: &BigUint) -> BigUint {
     assert!(!(a % m).is_zero(), "no inverse of zero");
     a.modpow(&(m - BigUint::from(2u32)), m)
 }
